@@ -1197,3 +1197,155 @@ Proof.
       destruct (u_entries (unst (r_log (rn_raft n)))) as [|e0 es] eqn:Eue; [congruence|].
       apply N.eqb_eq in D3, D4. rewrite D3, D4. cbn. eauto.
 Qed.
+
+(* ------------------------------------------------------------------ *)
+(* 8. advance_append *)
+
+Lemma rn_advance_append_inv n rd n' light :
+  rn_advance_append n rd = Ok (n', light) ->
+  exists n1 n2 n3 lr,
+    commit_ready n rd = Ok n1
+    /\ rn_on_persist_ready n1 (rn_max_number n1) = Ok n2
+    /\ gen_light_ready n2 = Ok (n3, lr)
+    /\ (is_leader (rn_raft n3) = true \/ lr_messages lr = [])
+    /\ hs_term (rn_prev_hs n3) = r_term (rn_raft n3)
+    /\ hs_vote (rn_prev_hs n3) = r_vote (rn_raft n3)
+    /\ hs_commit (rn_prev_hs n3) <= committed (r_log (rn_raft n3))
+    /\ n' = n3 <| rn_prev_hs := Raft.hard_state_of (rn_raft n3) |>
+    /\ light = mkLR (if hs_commit (rn_prev_hs n3) <? committed (r_log (rn_raft n3))
+                     then Some (committed (r_log (rn_raft n3))) else None)
+                    (lr_committed_entries lr) (lr_messages lr).
+Proof.
+  unfold rn_advance_append. intros H.
+  inv_bind H. rename x into n1. inv_bind H. rename x into n2.
+  inv_bind H. destruct x as [n3 lr].
+  exists n1, n2, n3, lr. split; [exact Hx|]. split; [exact Hx0|]. split; [exact Hx1|].
+  match type of H with (if ?c then _ else _) = _ => destruct c eqn:Ec end; [discriminate|].
+  inv_bind H. destruct x as [n4 ci].
+  match type of H with (if ?c then _ else _) = _ => destruct c eqn:Eh end; [discriminate|].
+  inversion H; subst n' light; clear H.
+  apply negb_false_iff in Eh. apply hs_eqb_eq in Eh.
+  split.
+  { apply andb_false_iff in Ec. destruct Ec as [Ec|Ec].
+    - left. apply negb_false_iff in Ec. exact Ec.
+    - right. destruct (lr_messages lr); [reflexivity|discriminate]. }
+  cbn [Raft.hard_state_of hs_commit] in Hx2.
+  destruct (hs_commit (rn_prev_hs n3) <? committed (r_log (rn_raft n3))) eqn:Elt.
+  - inversion Hx2; subst n4 ci; clear Hx2. cbn in Eh.
+    unfold Raft.hard_state_of in Eh. inversion Eh as [[E1 E2]].
+    repeat split; try lia; try reflexivity.
+  - match type of Hx2 with (if ?c then _ else _) = _ => destruct c eqn:Ee end; [discriminate|].
+    inversion Hx2; subst n4 ci; clear Hx2.
+    unfold Raft.hard_state_of in Eh.
+    repeat split.
+    + rewrite <- Eh. reflexivity.
+    + rewrite <- Eh. reflexivity.
+    + rewrite <- Eh. cbn. lia.
+    + unfold Raft.hard_state_of. rewrite Eh. destruct n3; reflexivity.
+Qed.
+
+Theorem advance_append_hs n rd n' light :
+  rn_advance_append n rd = Ok (n', light) ->
+  rn_prev_hs n' = Raft.hard_state_of (rn_raft n')
+  /\ (forall c, lr_commit_index light = Some c <->
+        hs_commit (match rd_hs rd with Some hs => hs | None => rn_prev_hs n end)
+          < committed (r_log (rn_raft n'))
+        /\ c = committed (r_log (rn_raft n')))
+  /\ (lr_commit_index light = None <->
+        hs_commit (match rd_hs rd with Some hs => hs | None => rn_prev_hs n end)
+          = committed (r_log (rn_raft n'))).
+Proof.
+  intros H. destruct (rn_advance_append_inv _ _ _ _ H)
+    as (n1 & n2 & n3 & lr & H1 & H2 & H3 & _ & _ & _ & Hle & Hn' & Hl).
+  destruct (commit_ready_stabilises _ _ _ H1) as (_ & _ & _ & E1).
+  destruct (on_persist_ready_spec _ _ _ H2) as (i & t & si & r1 & _ & _ & _ & _ & _ & P & _).
+  destruct (gen_light_ready_spec _ _ _ H3) as (oe & k & _ & _ & E3 & _).
+  assert (Hprev : rn_prev_hs n3 = match rd_hs rd with Some hs => hs | None => rn_prev_hs n end).
+  { rewrite E3. cbn. rewrite P, E1. cbn. apply (commit_prev_frame n rd). }
+  rewrite <- Hprev. subst n' light. cbn.
+  split; [reflexivity|].
+  destruct (hs_commit (rn_prev_hs n3) <? committed (r_log (rn_raft n3))) eqn:Elt.
+  - split.
+    + intros c. split; [intros E; inversion E; split; [lia|reflexivity]|intros [_ ->]; reflexivity].
+    + split; [discriminate|lia].
+  - split.
+    + intros c. split; [discriminate|intros [A _]; lia].
+    + split; [intros _; lia|reflexivity].
+Qed.
+
+(* ------------------------------------------------------------------ *)
+(* persisted messages: a leader's messages are released immediately, except
+   while a Ready that changes term or vote (this one or an outstanding one) is
+   not yet persisted (fix 4e5e493 of /repo) *)
+
+(* the accessors Ready::messages / Ready::persisted_messages *)
+Definition rd_messages (rd : ready) : list msg :=
+  if rd_is_persisted_msg rd then [] else lr_messages (rd_light rd).
+Definition rd_persisted_messages (rd : ready) : list msg :=
+  if rd_is_persisted_msg rd then lr_messages (rd_light rd) else [].
+
+Definition changes_tv (n : rawnode) : Prop :=
+  r_term (rn_raft n) <> hs_term (rn_prev_hs n) \/ r_vote (rn_raft n) <> hs_vote (rn_prev_hs n).
+
+Lemma ms1_iff n : hs_changed n && tv_changed n = true <-> changes_tv n.
+Proof.
+  unfold hs_changed, tv_changed, hs_eqb, Raft.hard_state_of, changes_tv.
+  cbn [hs_term hs_vote hs_commit].
+  destruct (r_term (rn_raft n) =? hs_term (rn_prev_hs n)) eqn:E1;
+  destruct (r_vote (rn_raft n) =? hs_vote (rn_prev_hs n)) eqn:E2; cbn; split; try tauto; try lia;
+    try (intros _; lia).
+Qed.
+
+Theorem ready_persisted_msg_spec n n' rd :
+  rn_ready n = Ok (n', rd) ->
+  exists recs, ready_records n recs /\
+    (rd_is_persisted_msg rd = true <->
+       is_leader (rn_raft n) = false
+       \/ changes_tv n
+       \/ exists rr, In rr recs /\ rr_hs_changed rr = true)
+    /\ (rr_hs_changed (List.last (rn_records n') rr_default) = true <-> changes_tv n).
+Proof.
+  intros H.
+  destruct (ready_entries_are_unstable _ _ _ H)
+    as (_ & _ & _ & _ & _ & _ & _ & _ & _ & (recs & Hrec & Hp & Hr) & _).
+  exists recs. split; [exact Hrec|]. split.
+  - rewrite Hp, !orb_true_iff, negb_true, ms1_iff, existsb_exists. tauto.
+  - rewrite Hr, last_last. cbn [rr_hs_changed]. apply ms1_iff.
+Qed.
+
+(* a Ready whose hard state changes term or vote carries no immediate message:
+   all its messages are to be sent after persisting *)
+Theorem tv_change_no_immediate_msgs n n' rd :
+  rn_ready n = Ok (n', rd) ->
+  (forall hs, rd_hs rd = Some hs ->
+     (hs_term hs <> hs_term (rn_prev_hs n) \/ hs_vote hs <> hs_vote (rn_prev_hs n)) ->
+     rd_messages rd = [] /\ rd_persisted_messages rd = lr_messages (rd_light rd)).
+Proof.
+  intros H hs Hhs Htv.
+  destruct (ready_entries_are_unstable _ _ _ H)
+    as (_ & _ & _ & _ & R3 & _).
+  apply R3 in Hhs. destruct Hhs as [_ ->].
+  destruct (ready_persisted_msg_spec _ _ _ H) as (recs & _ & Hp & _).
+  assert (E : rd_is_persisted_msg rd = true).
+  { apply Hp. right. left. exact Htv. }
+  unfold rd_messages, rd_persisted_messages. rewrite E. split; reflexivity.
+Qed.
+
+(* ... and neither does a leader's Ready while such a Ready is outstanding; a
+   follower's / candidate's messages always wait *)
+Theorem immediate_msgs_only_leader_settled n n' rd :
+  rn_ready n = Ok (n', rd) -> rd_messages rd <> [] ->
+  is_leader (rn_raft n) = true /\ ~ changes_tv n
+  /\ exists recs, ready_records n recs /\ forall rr, In rr recs -> rr_hs_changed rr = false.
+Proof.
+  intros H Hm.
+  destruct (ready_persisted_msg_spec _ _ _ H) as (recs & Hrec & Hp & _).
+  unfold rd_messages in Hm. destruct (rd_is_persisted_msg rd) eqn:E; [congruence|].
+  assert (Hn : ~ (is_leader (rn_raft n) = false \/ changes_tv n
+                  \/ exists rr, In rr recs /\ rr_hs_changed rr = true)).
+  { intros C. apply Hp in C. congruence. }
+  split; [destruct (is_leader (rn_raft n)); [reflexivity|exfalso; apply Hn; auto]|].
+  split; [intros C; apply Hn; auto|].
+  exists recs. split; [exact Hrec|]. intros rr Hin.
+  destruct (rr_hs_changed rr) eqn:Er; [|reflexivity]. exfalso. apply Hn. right. right. eauto.
+Qed.
